@@ -58,6 +58,13 @@ pub mod verif_hooks {
     ) -> Vec<(u32, u32, u32)> {
         crate::semantic_tokens::verif_tokens(page_content, literal_start, tok_start, tok_end)
     }
+    pub fn api_format<TCompilationProfile: isograph_schema::CompilationProfile>(
+        db: &isograph_schema::IsographDatabase<TCompilationProfile>,
+        iso_literal_text: &str,
+        relative_path_to_source_file: common_lang_types::RelativePathToSourceFile,
+    ) -> Option<String> {
+        crate::format::verif_format_literal(db, iso_literal_text, relative_path_to_source_file)
+    }
     pub fn api_range(content: &str, start: usize, len: usize) -> ((u32, u32), (u32, u32)) {
         let extraction = isograph_schema::IsoLiteralExtraction {
             const_export_name: None,
